@@ -213,7 +213,7 @@ def c03_scenario(kind="new type", fmt="stream"):
     D = _descs()
     a, a2, b = D["A"](n=1), D["A2"](s="x"), D["B"](s="b")
     pre = {"new type": [], "known type": [a], "same name registered": [a2], "nested, nothing known": [], "nested, holder known": [D["N"](r=None, rs=[])], "nested, inner known": [a, b],
-           "grouped, nothing known": [], "grouped, one member known": [a], "grouped, same names registered": [a, D["B"].__class__("c03/b", [("varint", "zz")])(zz=1)], "grouped twice, other members": [GroupedRecord("c03/grp", [D["G1"](n=1), b])], "same hash text, other name": [], "two writers": [], "frame": [], "write refused while packing, caller carries on": [], "names that differ only in '/' and '_'": [], "declared with byte strings": [], "a record type without fields": [], "grouped records of different shapes, flattened": [], "one holder with two same-name types, read back": [], "grouped record of two same-name types, read back": []}[kind]
+           "grouped, nothing known": [], "grouped, one member known": [a], "grouped, same names registered": [a, D["B"].__class__("c03/b", [("varint", "zz")])(zz=1)], "grouped twice, other members": [GroupedRecord("c03/grp", [D["G1"](n=1), b])], "same hash text, other name": [], "two writers": [], "frame": [], "write refused while packing, caller carries on": [], "names that differ only in '/' and '_'": [], "declared with byte strings": [], "a record type without fields": [], "grouped records of different shapes, flattened": [], "one holder with two same-name types, read back": [], "grouped record of two same-name types, read back": [], "rotating writer: every file is a stream of its own": [], "grouped record held by a record field": []}[kind]
     if kind.startswith("nested"):
         rec = D["N"](r=a, rs=[a2, b])
     elif kind == "grouped twice, other members":
@@ -280,6 +280,44 @@ def c03_scenario(kind="new type", fmt="stream"):
             bad = _check_file(fmt, w.data(), w.written)
         except Exception as e:
             bad = f"after a refused write, reading back raised {type(e).__name__}: {e}"
+        return {"violates": bool(bad), "detail": bad}
+    if kind == "rotating writer: every file is a stream of its own":
+        import datetime as dt
+        import glob
+        import tempfile
+
+        from flow.record import PathTemplateWriter, RecordReader
+
+        bad = None
+        with tempfile.TemporaryDirectory() as td:
+            w = PathTemplateWriter(os.path.join(td, "{name}-{ts:%Y%m%dT%H}.records"), name="t")
+            for i, h in enumerate((20, 21, 22)):
+                g = dt.datetime(2017, 12, 6, h, 10, tzinfo=dt.timezone.utc)
+                w.write(D["A"](n=i, _generated=g))
+                w.write(D["N"](r=D["A2"](s="x"), rs=[], _generated=g))
+            w.close()
+            for p_ in sorted(glob.glob(os.path.join(td, "*"))):
+                try:
+                    names_ = [r._desc.name for r in RecordReader(p_)]
+                except Exception as e:
+                    bad = f"{os.path.basename(p_)} cannot be read on its own: {type(e).__name__}: {e}"
+                    break
+                if names_ != ["c03/a", "c03/nest"]:
+                    bad = f"{os.path.basename(p_)} holds {names_}"
+                    break
+        return {"violates": bool(bad), "detail": bad}
+    if kind == "grouped record held by a record field":
+        holder = D["N"](r=GroupedRecord("c03/gin", [a, b]), rs=[GroupedRecord("c03/gin2", [a2])])
+        w = _Writer(fmt)
+        try:
+            w.write(holder)
+            from flow.record.stream import RecordStreamReader
+
+            back = list(RecordStreamReader(io.BytesIO(w.data())))
+            got = [m._desc.name for m in back[0].r.records]
+            bad = None if got == ["c03/a", "c03/b"] else f"the grouped record inside the holder came back with member types {got}"
+        except Exception as e:
+            bad = f"writing / reading back raised {type(e).__name__}: {e}"
         return {"violates": bool(bad), "detail": bad}
     if kind in ("one holder with two same-name types, read back", "grouped record of two same-name types, read back"):
         rec = D["N"](r=a, rs=[a2, a]) if kind.startswith("one holder") else GroupedRecord("c03/grp", [a, a2])
